@@ -57,9 +57,7 @@ MANIFEST = dict(
          "returns d (proved: the heap round trip it rests on; checked in-kernel on an example and by wire interface 8 on every "
          "generated datum; missing: the trip through transform/compile/run); the three std float statements "
          "C10_std_roundtrip_stmt, C10_display_point_stmt, C10_no_inner_minus_stmt (= the OPEN statements of C16, hypotheses of "
-         "C10_write_read / C10_float_atom; a datum without floats does not use them in substance). The general "
-         "show_hex/parse_hex_u32 inverse is proved for the 65 control characters (the only hex-escaped ones) by kernel "
-         "computation. Known finding prefix-path-symbol (open, not small: parse_number accepts any token after a number "
+         "C10_write_read / C10_float_atom; a datum without floats does not use them in substance). Known finding prefix-path-symbol (open, not small: parse_number accepts any token after a number "
          "prefix). Trusted: Coq kernel; hand-written model tied by sampling correspondence (exhaustive over scalar values in "
          "thorough); std float formatting/parsing as specified in Model/F64Fmt.v; Rust harness building Cell values and the "
          "structural dump; extraction + OCaml driver (cross-checked in-kernel); Python oracle. Axioms: character, string, "
